@@ -19,3 +19,6 @@ def run(ctx, rep):
     more2.rule_arg_names(mod, rep, lambda f: f.name in ("sp_colorder", "get_perm_c", "sp_coletree", "sp_symetree", "getata", "at_plus_a", "get_colamd") or (f.file or "").endswith(("colamd.c", "mmd.c")), floor=1)
     from ..rules import more3
     more3.rule_etree_mustwrite(mod, rep)
+    from ..rules import more4
+    more4.rule_ptr_shift(mod, rep)
+    more4.rule_mem_bytes(mod, rep)
